@@ -35,7 +35,10 @@ RULE = ("one case = one round: k goroutines (quick 4, thorough 8) started behind
         "run must yield the same multiset; a panic escaping a workload, an INCONSISTENT iterator or a non-reproducible sequential "
         "digest is a failure by itself. distinct_nontrivial = distinct (GOMAXPROCS, workload#instance per goroutine) "
         "assignments; every round is non-trivial (>= 2 goroutines working concurrently). When the obligation is broken the "
-        "workloads of the package named by the non-benign inventory entry run first, alone (batches cold-directed, race-directed). "
+        "workloads of the package named by the non-benign inventory entry run first, alone (batches cold-directed, race-directed), "
+        "sync-free workloads (hashtables-nosync, sets-nosync: no call takes a package-level lock, so no incidental happens-before edge can "
+        "hide a race) among them, and an escalation pass with the thorough tier's budgets runs before a broken obligation is "
+        "reported with no failing schedule. "
         "`cold` cases: the harness re-executes itself so that each workload is the FIRST thing a fresh process does (k goroutines "
         "behind the barrier, reference digests only afterwards): first-use races of lazily initialised package-level state exist only then.")
 
@@ -55,9 +58,9 @@ ASSUMPTIONS = [
 
 # which workloads exercise a package (used to direct the search when the obligation names a variable)
 ALL_WL = ["hashtables", "ordered", "sets", "tries", "heaps", "sorts", "first-follow", "transforms", "predictive", "slr",
-          "lalr", "lr1", "helpers", "misc", "automata", "hashtables-nosync"]
+          "lalr", "lr1", "helpers", "misc", "automata", "hashtables-nosync", "sets-nosync"]
 PKG_WL = {
-    "trie": ["tries"], "symboltable": ["hashtables-nosync", "hashtables", "ordered", "helpers"], "set": ["sets", "first-follow"],
+    "trie": ["tries"], "symboltable": ["hashtables-nosync", "hashtables", "ordered", "helpers"], "set": ["sets-nosync", "sets", "first-follow"],
     "heap": ["heaps"], "sort": ["sorts"], "radixsort": ["sorts"], "unionfind": ["sorts"], "list": ["misc", "slr"],
     "graph": ["misc"], "lexer/input": ["misc"], "lexer": ["misc", "predictive", "slr"], "dot": ["heaps", "tries", "ordered", "automata", "misc", "slr", "predictive"],
     "hash": ["helpers", "hashtables", "hashtables-nosync", "first-follow", "automata"], "automata": ["automata", "helpers"],
